@@ -490,6 +490,10 @@ func freshMapFor(v ssa.Value, depth int, target *ssa.FieldAddr) (string, bool) {
 
 // isLoadError: the error value is result #1 of a call to Engine.Load (through phis).
 func isLoadError(v ssa.Value, loadFn *types.Func) bool {
+	return isLoadErrorIn(v, loadFn, map[*ssa.Function]bool{})
+}
+
+func isLoadErrorIn(v ssa.Value, loadFn *types.Func, helperSeen map[*ssa.Function]bool) bool {
 	seen := map[ssa.Value]bool{}
 	var walk func(v ssa.Value) bool
 	walk = func(v ssa.Value) bool {
@@ -500,7 +504,39 @@ func isLoadError(v ssa.Value, loadFn *types.Func) bool {
 		switch x := v.(type) {
 		case *ssa.Extract:
 			c, ok := x.Tuple.(*ssa.Call)
-			return ok && calleeFunc(c) == loadFn
+			if !ok {
+				return false
+			}
+			if calleeFunc(c) == loadFn {
+				return true
+			}
+			// a loading helper of the package: every error it returns is a Load error (or nil)
+			if g := c.Call.StaticCallee(); g != nil && g.Pkg != nil && g.Pkg.Pkg.Path() == twigPath && len(g.Blocks) > 0 && !helperSeen[g] {
+				helperSeen[g] = true
+				defer delete(helperSeen, g)
+				all, n := true, 0
+				instrsOf(g, func(in ssa.Instruction) {
+					ret, isRet := in.(*ssa.Return)
+					if !isRet {
+						return
+					}
+					res := retResults(ret)
+					if x.Index >= len(res) {
+						all = false
+						return
+					}
+					ev := res[x.Index]
+					if isNilConst(ev) {
+						return
+					}
+					n++
+					if !isLoadErrorIn(ev, loadFn, helperSeen) {
+						all = false
+					}
+				})
+				return all && n > 0
+			}
+			return false
 		case *ssa.Phi:
 			for _, e := range x.Edges {
 				if isNilConst(e) {
